@@ -210,3 +210,98 @@ def returned_fields(b: BodyDef) -> dict:
                 out[k[1]] = v
         return out
     return {"": r}
+
+
+# ---------------------------------------------------------------------------
+# bounded agreement of arithmetic / comparison normal forms
+
+import itertools as _it
+
+
+def box(params: dict, ranges: dict):
+    """Valuation generator: `params` maps parameter atoms to candidate values; `ranges` maps variable atoms to
+    (lo term, hi term) evaluated under the parameters (inclusive)."""
+
+    def gen(atoms):
+        pkeys = list(params)
+        for pv in _it.product(*[params[k] for k in pkeys]):
+            val = dict(zip(pkeys, pv))
+            rkeys = list(ranges)
+            spans = []
+            ok = True
+            for k in rkeys:
+                lo, hi = ranges[k]
+                lo_v = lo if isinstance(lo, int) else int(evalt(lo, val))
+                hi_v = hi if isinstance(hi, int) else int(evalt(hi, val))
+                if hi_v < lo_v:
+                    ok = False
+                    break
+                spans.append(range(lo_v, hi_v + 1))
+            if not ok:
+                continue
+            for rv in _it.product(*spans):
+                v = dict(val)
+                v.update(zip(rkeys, rv))
+                missing = [a for a in atoms if a not in v]
+                if missing:
+                    raise NotEvaluable("free atoms " + ", ".join(tstr(a) for a in missing))
+                yield v
+
+    return gen
+
+
+def check_agree(ctx: Ctx, rule: str, site: str, construct: str, found: Term, ref: Term, params: dict, ranges: dict, required: str) -> bool:
+    """`found` and `ref` evaluate equally for every valuation of the declared ranges (bounded instantiation of the
+    parameters).  An expression outside the evaluable fragment is an ANALYSIS-ERROR, never a pass."""
+    from ..logic import evalt
+
+    from ..logic import free_atoms
+
+    known = list(params) + list(ranges)
+    # atoms the reference does not know (other signals): they can certainly be 0 or 1.  A difference found with such
+    # values is a genuine difference; agreement on {0, 1} alone decides nothing.
+    extra = [a for a in free_atoms(found, known) if a not in known and a[0] != "c"]
+    ranges2 = dict(ranges)
+    for a in extra:
+        ranges2[a] = (0, 1)
+    try:
+        cex = agree_bounded(found, ref, box(params, ranges2), known + extra)
+    except NotEvaluable as e:
+        raise AnalysisError(rule, site, f"{construct}: cannot evaluate {tstr(found)[:120]} ({e})")
+    if cex is None and extra:
+        raise AnalysisError(rule, site, f"{construct}: {tstr(found)[:120]} depends on {', '.join(tstr(a) for a in extra)} which the reference does not constrain")
+    return ctx.check(cex is None, rule, site, construct,
+                     found=tstr(found)[:200] + ("" if cex is None else "  differs at " + ", ".join(f"{tstr(a)}={v}" for a, v in cex.items())),
+                     required=required + f"  [= {tstr(ref)[:120]} on the declared ranges]")
+
+
+from ..logic import evalt  # noqa: E402
+
+
+def sole_writer_in_body(ctx: Ctx, rule: str, comp, ex, target: Term, body: BodyDef, what: str, rhs_pred=None, gated: bool = True, construct: str = ""):
+    """All writers of `target` sit in `body`; when `gated`, in a domain that is guarded by the body's run."""
+    ws = writers_of(ex, target)
+    ok = bool(ws)
+    detail = []
+    for w in ws:
+        inb = enclosing_body(ex, w.fact) is body
+        dom_ok = (domain_class(w.fact.domain) == RUN_GATED) if gated else True
+        rhs_ok = rhs_pred(w.rhs) if rhs_pred else True
+        detail.append(f"{w.fact.site}: {tstr(w.fact.domain)} += {tstr(w.fact.lhs)}.eq({tstr(w.rhs)})")
+        ok = ok and inb and dom_ok and rhs_ok and w.part is None
+    ctx.check(ok, rule, ws[0].fact.site if ws else body.site, construct or f"{comp.clsname}.{tstr(target)}", found="; ".join(detail) or "no writer", required=what)
+    return ws
+
+
+def unguarded_call(ex, body: BodyDef, callee: Term):
+    """The (single) call of `callee` made directly in `body`, not under any condition and without enable_call."""
+    cs = [c for c in calls_in_body(ex, body) if c.callee == callee]
+    if len(cs) != 1:
+        return None, cs
+    c = cs[0]
+    extra = [fr for fr in c.frames if fr[0] in ("if", "elif", "else", "case", "default", "state", "switch", "for", "branch")]
+    idx = [k for k, fr in enumerate(c.frames) if fr[0] == "body" and fr[1] == body.bodyid]
+    inner = [fr for fr in c.frames[idx[0] + 1:] if fr[0] in ("if", "elif", "else", "case", "default", "state", "for", "branch", "avoid")] if idx else extra
+    if inner or c.enable is not None:
+        return None, cs
+    return c, cs
